@@ -10,49 +10,100 @@ package owned
 // adds no code. Lines starting with //@ are parsed by govc; see /verif/DESIGN.md.
 
 // Every operation of the owned state counts as one delegated call (ghost counter), so that callers
-// can state "a rejected operation performs no delegated call".
+// can state "a rejected operation performs no delegated call". C08: every write goes out under the
+// controller's own name (the owner the State was built with), unless the caller explicitly asked for
+// no owner (Create/Modify) or named another owner (Teardown/Destroy): asserted at the delegated call
+// over the owner the option passed carries.
 //@ ghostvar delegated int
 //@
+// The option folders apply caller-supplied option functions to a local options value (a function
+// value modifies only what its arguments reach: that local).
+//@ func ToDeleteOptions
+//@   props C08
+//@   requires [opts-nonnil] forall i int :: 0 <= i && i < len(opts) ==> opts[i] != nil
+//@ func ToModifyOptions
+//@   props C08
+//@   requires [opts-nonnil] forall i int :: 0 <= i && i < len(opts) ==> opts[i] != nil
+//@ func (*State).Modify
+//@   props C08
+//@   requires [wired] st != nil && st.state != nil
+//@   requires [opts-nonnil] forall i int :: 0 <= i && i < len(options) ==> options[i] != nil
 //@ func (*State).Get
-//@   trusted
+//@   props C08
+//@   requires [wired] st != nil && st.state != nil
 //@   modifies delegated
-//@   ensures delegated == old(delegated) + 1
+//@   ghost delegated = old(delegated) + 1
+//@   ensures [one-delegated-call] delegated == old(delegated) + 1
 //@ func (*State).List
-//@   trusted
+//@   props C08
+//@   requires [wired] st != nil && st.state != nil
 //@   modifies delegated
-//@   ensures delegated == old(delegated) + 1
+//@   ghost delegated = old(delegated) + 1
+//@   ensures [one-delegated-call] delegated == old(delegated) + 1
 //@ func (*State).ContextWithTeardown
-//@   trusted
+//@   props C08
+//@   requires [wired] st != nil && st.state != nil
 //@   modifies delegated
-//@   ensures delegated == old(delegated) + 1
+//@   ghost delegated = old(delegated) + 1
+//@   ensures [one-delegated-call] delegated == old(delegated) + 1
 //@ func (*State).Create
-//@   trusted
+//@   props C08
+//@   requires [wired] st != nil && st.state != nil
 //@   modifies delegated
-//@   ensures delegated == old(delegated) + 1
+//@   ghost delegated = old(delegated) + 1
+//@   ensures [one-delegated-call] delegated == old(delegated) + 1
+//@   requires [opts-nonnil] forall i int :: 0 <= i && i < len(options) ==> options[i] != nil
+//@   at Create #1
+//@     assert [created-resources-are-stamped-with-the-owner] len(callarg2) == 1 && createOwnerOf(callarg2[0]) == ite(opts.WithNoOwner, "", st.owner)
 //@ func (*State).Update
-//@   trusted
+//@   props C08
+//@   requires [wired] st != nil && st.state != nil
 //@   modifies delegated
-//@   ensures delegated == old(delegated) + 1
+//@   ghost delegated = old(delegated) + 1
+//@   ensures [one-delegated-call] delegated == old(delegated) + 1
+//@   at Update #1
+//@     assert [updates-only-under-the-own-name] len(callarg2) == 1 && updateOwnerOf(callarg2[0]) == st.owner
 //@ func (*State).ModifyWithResult
-//@   trusted
+//@   props C08
+//@   requires [wired] st != nil && st.state != nil
 //@   modifies delegated
-//@   ensures delegated == old(delegated) + 1
+//@   ghost delegated = old(delegated) + 1
+//@   ensures [one-delegated-call] delegated == old(delegated) + 1
+//@   requires [opts-nonnil] forall i int :: 0 <= i && i < len(options) ==> options[i] != nil
+//@   at ModifyWithResult #1
+//@     assert [modifies-only-under-the-own-name] len(callarg3) == 2 && updateOwnerOf(callarg3[0]) == ite(modifyOptions.WithNoOwner, "", st.owner)
 //@ func (*State).Teardown
-//@   trusted
+//@   props C08
+//@   requires [wired] st != nil && st.state != nil
 //@   modifies delegated
-//@   ensures delegated == old(delegated) + 1
+//@   ghost delegated = old(delegated) + 1
+//@   ensures [one-delegated-call] delegated == old(delegated) + 1
+//@   requires [opts-nonnil] forall i int :: 0 <= i && i < len(opOpts) ==> opOpts[i] != nil
+//@   at Teardown #1
+//@     assert [teardown-under-the-own-name-unless-another-owner-is-named] len(callarg2) == 1 &&
+//@       teardownOwnerOf(callarg2[0]) == ite(opOpt.Owner != nil, *opOpt.Owner, st.owner)
 //@ func (*State).Destroy
-//@   trusted
+//@   props C08
+//@   requires [wired] st != nil && st.state != nil
 //@   modifies delegated
-//@   ensures delegated == old(delegated) + 1
+//@   ghost delegated = old(delegated) + 1
+//@   ensures [one-delegated-call] delegated == old(delegated) + 1
+//@   requires [opts-nonnil] forall i int :: 0 <= i && i < len(opOpts) ==> opOpts[i] != nil
+//@   at Destroy #1
+//@     assert [destroy-under-the-own-name-unless-another-owner-is-named] len(callarg2) == 1 &&
+//@       destroyOwnerOf(callarg2[0]) == ite(opOpt.Owner != nil, *opOpt.Owner, st.owner)
 //@ func (*State).AddFinalizer
-//@   trusted
+//@   props C08
+//@   requires [wired] st != nil && st.state != nil
 //@   modifies delegated
-//@   ensures delegated == old(delegated) + 1
+//@   ghost delegated = old(delegated) + 1
+//@   ensures [one-delegated-call] delegated == old(delegated) + 1
 //@ func (*State).RemoveFinalizer
-//@   trusted
+//@   props C08
+//@   requires [wired] st != nil && st.state != nil
 //@   modifies delegated
-//@   ensures delegated == old(delegated) + 1
+//@   ghost delegated = old(delegated) + 1
+//@   ensures [one-delegated-call] delegated == old(delegated) + 1
 
 // ---------------------------------------------------------------------------
 // C07: ghost trace of the writes a controller issues through the Writer interface. The interface
